@@ -77,6 +77,13 @@ def make(Model, spec, scripts, tol):
     for i in range(spec.n):
         m.A[i] = 0.25 * i
         m.B[i] = -0.5 * i
+    from .common import h64
+    prior = h64(['prior', spec.kind, {str(k): v for k, v in scripts.items()}]) % 3
+    if prior:
+        # the model has been solved before: every period already carries solution information, which a run leaves alone
+        # wherever it does not (or not yet) solve
+        m.status = ['.', 'F'][prior - 1]
+        m.iterations = 2 + prior
     return m
 
 
